@@ -20,10 +20,12 @@ Open Scope Z_scope.
 (* one image class: kname, files_types (ext None/'' = []), valid_exts, _compressed_suffixes,
    hasattr(header_class, 'may_contain_header'), _meta_sniff_len, and which
    filespec_to_file_map it has: 0 = FileBasedImage's, 1 = MGHImage's (.mgz special case),
-   2 = AFNIImage's (post-pass that looks at the file system; not modelled) *)
+   2 = AFNIImage's (post-pass that looks at the file system; not modelled); and which
+   header_class.may_contain_header it has (skind): 0 none, 1 Nifti1Header's, 2 Nifti2Header's,
+   3 _Cifti2AsNiftiHeader's, 4 AnalyzeHeader's, 5 Spm2AnalyzeHeader's, 6 Minc1Header's, 7 Minc2Header's *)
 Record klass := mkK {
   kname : str; ftypes : list (str * str); vexts : list str; csuf : list str;
-  sniffs : bool; sniff_len : Z; fkind : Z }.
+  sniffs : bool; sniff_len : Z; fkind : Z; skind : Z }.
 
 Inductive terr := ErrWrongExt | ErrConfusing | ErrNoTypes.
 Inductive res (A : Type) := Ok (a : A) | Err (e : terr).
@@ -185,14 +187,115 @@ Fixpoint load_class (ks : list klass) (oracle : list bool) (fn : str) (i : nat) 
     end
   end.
 
-(* loadsave.save: img.to_filename(filename); on ImageFileError the implicit conversions.
-   `suffixes` = loadsave._compressed_suffixes; conv = for every class of all_image_classes whether
-   klass.from_image(img) succeeds (external).  Returns the class that writes the file (None =
-   ImageFileError 'Cannot work out file type'; a failing from_image of every candidate re-raises). *)
+Fixpoint find_index {A} (f : A -> bool) (l : list A) (i : nat) : option nat :=
+  match l with
+  | [] => None
+  | x :: r => if f x then Some i else find_index f r (S i)
+  end.
+
 Definition N1I : str := [78;105;102;116;105;49;73;109;97;103;101].   (* "Nifti1Image" *)
 Definition N1P : str := [78;105;102;116;105;49;80;97;105;114].       (* "Nifti1Pair" *)
 Definition N2I : str := [78;105;102;116;105;50;73;109;97;103;101].   (* "Nifti2Image" *)
 Definition N2P : str := [78;105;102;116;105;50;80;97;105;114].       (* "Nifti2Pair" *)
+
+(* ---- header sniffing: header_class.may_contain_header as decision functions on the sniffed
+   bytes.  Everything they look at is collected in `features`; platform is little-endian
+   (hdr_struct = native, bs_hdr_struct = byte-swapped). *)
+Record feat := mkF {
+  f4 : bool;        (* len(binaryblock) >= 4 *)
+  f348 : bool;      (* len(binaryblock) >= 348 *)
+  f540 : bool;      (* len(binaryblock) >= 540 *)
+  fmagic1 : bool;   (* bytes 344:348 are 'ni1\0' or 'n+1\0' (S4 field == b'ni1' / b'n+1') *)
+  fsz348 : bool;    (* sizeof_hdr is 348 in one of the two byte orders *)
+  fsz540 : bool;    (* sizeof_hdr is 540 in one of the two byte orders *)
+  fcifti : bool;    (* NIfTI-2 intent_code, in the guessed byte order, passes _valid_intent_code *)
+  fcdf : bool;      (* first four bytes 'CDF\x01' *)
+  fhdf : bool }.    (* first four bytes '\x89HDF' *)
+
+Definition NI1 : list Z := [110;105;49;0].
+Definition NP1 : list Z := [110;43;49;0].
+Definition CDF1 : list Z := [67;68;70;1].
+Definition HDF : list Z := [137;72;68;70].
+
+Definition in_intervals (c : Z) (iv : list (Z * Z)) : bool :=
+  existsb (fun ab => (fst ab <=? c) && (c <=? snd ab)) iv.
+
+(* AnalyzeHeader.guessed_endian on a NIfTI-2 block (dim[0] is the int64 at offset 16): true = big endian *)
+Definition nifti2_big_endian (hb : list Z) : bool :=
+  let dim0 := dec_s false (take 8 (drop 16 hb)) in
+  if dim0 =? 0 then dec_s true (take 4 hb) =? 540
+  else if (1 <=? dim0) && (dim0 <=? 7) then false else true.
+
+(* intents = the intervals of codes _valid_intent_code accepts (regenerated table) *)
+Definition features (intents : list (Z * Z)) (hb : list Z) : feat :=
+  let n := zlen hb in
+  let sz_le := dec_s false (take 4 hb) in
+  let sz_be := dec_s true (take 4 hb) in
+  let m := take 4 (drop 344 hb) in
+  mkF (4 <=? n) (348 <=? n) (540 <=? n)
+      (str_eqb m NI1 || str_eqb m NP1)
+      ((sz_le =? 348) || (sz_be =? 348)) ((sz_le =? 540) || (sz_be =? 540))
+      (in_intervals (dec_s (nifti2_big_endian hb) (take 4 (drop 504 hb))) intents)
+      (str_eqb (take 4 hb) CDF1) (str_eqb (take 4 hb) HDF).
+
+(* may_contain_header of each kind *)
+Definition mc (sk : Z) (f : feat) : bool :=
+  if sk =? 1 then f348 f && fmagic1 f
+  else if sk =? 2 then f540 f && fsz540 f
+  else if sk =? 3 then f540 f && fsz540 f && fcifti f
+  else if sk =? 4 then f348 f && fsz348 f
+  else if sk =? 5 then f348 f && negb (fmagic1 f) && fsz348 f
+  else if sk =? 6 then fcdf f
+  else if sk =? 7 then fhdf f
+  else false.
+
+(* the sniff oracle of path_maybe_image, given the bytes read from the header file (at most
+   max(_meta_sniff_len, 1024) of them): long enough and accepted *)
+Definition sniff_ok (intents : list (Z * Z)) (k : klass) (hb : list Z) : bool :=
+  (sniff_len k <=? zlen hb) && mc (skind k) (features intents hb).
+
+(* the same decision with the extension test of path_maybe_image reduced to what it depends on for
+   a name root ++ ext' ++ suffix': the lowered extension and the lowered suffix ([] = none) *)
+Definition lmem (x : str) (l : list str) : bool := existsb (str_eqb x) l.
+Definition ext_valid_abs (k : klass) (le ls : str) : bool :=
+  match ls with
+  | [] => lmem le (vexts k)
+  | _ => if existsb (fun t => str_eqb (lower t) ls) (csuf k) then lmem le (vexts k) else lmem ls (vexts k)
+  end.
+Definition len_ok (sl : Z) (f : feat) : bool :=
+  if sl =? 0 then true else if sl =? 4 then f4 f else if sl =? 348 then f348 f
+  else if sl =? 540 then f540 f else false.
+Definition accepts_abs (k : klass) (le ls : str) (f : feat) : bool :=
+  ext_valid_abs k le ls && (negb (sniffs k) || (len_ok (sniff_len k) f && mc (skind k) f)).
+Definition predict (ks : list klass) (le ls : str) (f : feat) : option nat :=
+  find_index (fun k => accepts_abs k le ls f) ks 0.
+
+(* what the header of a file WRITTEN by a class looks like to the sniffers (by class name):
+   NIfTI-1: 348 bytes and a NIfTI-1 magic; NIfTI-2: sizeof_hdr 540, no NIfTI-1 magic at 344 (those
+   bytes belong to another field), intent outside the CIFTI set; CIFTI-2: the same with an accepted
+   intent; Analyze family: sizeof_hdr 348, no NIfTI-1 magic (bytes 344:348 are the field smin),
+   not a 540-byte header; MINC: their four-byte signatures; others: nothing to look at *)
+Definition writer_sig (k : klass) (f : feat) : bool :=
+  let n := kname k in
+  if str_eqb n N1P || str_eqb n N1I then f4 f && f348 f && fmagic1 f
+  else if str_eqb n N2P || str_eqb n N2I then f4 f && f348 f && f540 f && fsz540 f && negb (fmagic1 f) && negb (fcifti f)
+  else if str_eqb n [67;105;102;116;105;50;73;109;97;103;101] then   (* Cifti2Image *)
+    f4 f && f348 f && f540 f && fsz540 f && negb (fmagic1 f) && fcifti f
+  else if (skind k =? 4) || (skind k =? 5) then
+    f4 f && f348 f && fsz348 f && negb (fmagic1 f) && negb (f540 f && fsz540 f)
+  else if skind k =? 6 then f4 f && fcdf f
+  else if skind k =? 7 then f4 f && fhdf f && negb (fcdf f)
+  else negb (sniffs k).
+
+(* load() when every class that accepts the extension sniffs the same header bytes *)
+Definition load_by_header (ks : list klass) (intents : list (Z * Z)) (fn : str) (hb : list Z)
+  : res (option nat) :=
+  load_class ks (map (fun k => sniff_ok intents k hb) ks) fn 0.
+
+(* loadsave.save: img.to_filename(filename); on ImageFileError the implicit conversions.
+   `suffixes` = loadsave._compressed_suffixes; conv = for every class of all_image_classes whether
+   klass.from_image(img) succeeds (external).  Returns the class that writes the file (None =
+   ImageFileError 'Cannot work out file type'; a failing from_image of every candidate re-raises). *)
 Definition X_IMG : str := [46;105;109;103].
 Definition X_HDR : str := [46;104;100;114].
 Definition X_NII : str := [46;110;105;105].
@@ -224,11 +327,6 @@ Definition save_class (ks : list klass) (suffixes : list str) (k : klass) (fn : 
 
 (* Opener._get_opener_argnames with compress_ext_icase: index of the key of
    compress_ext_map (None key skipped) whose lower() equals the lowered extension *)
-Fixpoint find_index {A} (f : A -> bool) (l : list A) (i : nat) : option nat :=
-  match l with
-  | [] => None
-  | x :: r => if f x then Some i else find_index f r (S i)
-  end.
 Definition opener_index (keys : list str) (fn : str) : option nat :=
   let ext := lower (snd (os_splitext fn)) in
   find_index (fun key => str_eqb (lower key) ext) keys 0.
